@@ -5,8 +5,8 @@ use color_eyre::eyre::{Context, Result};
 use lsp_types::{TextDocumentPositionParams, Url};
 use spl_frontend::{
     ast::{GlobalDeclaration, Identifier, ProcedureDeclaration},
-    table::{GlobalEntry, GlobalTable, LocalTable, SymbolTable},
-    tokens::TokenType,
+    table::{GlobalEntry, GlobalTable, LocalTable, ProcedureEntry, SymbolTable},
+    tokens::{Token, TokenType},
     AnalyzedSource, ToRange, ToTextRange,
 };
 use tokio::sync::{mpsc::Sender, oneshot};
@@ -111,6 +111,24 @@ async fn doc_cursor(
                 } else {
                     None
                 }
+            })
+            .map(|entry| match entry {
+                // the local scope is not searched for the name of a global entity
+                GlobalEntry::Procedure(p)
+                    if doc
+                        .tokens
+                        .iter()
+                        .position(|token| token.range.contains(&index))
+                        .is_some_and(|token_index| {
+                            names_global_entity(&doc.tokens, token_index)
+                        }) =>
+                {
+                    GlobalEntry::Procedure(ProcedureEntry {
+                        local_table: LocalTable::default(),
+                        ..p
+                    })
+                }
+                entry => entry,
             });
         return Ok(Some(DocumentCursor {
             doc,
@@ -130,6 +148,22 @@ impl ToSpl for String {
     fn to_spl(&self) -> Self {
         Self::new() + "```spl\n" + self + "\n```"
     }
+}
+
+/// Types and procedures are declared in the global scope only.
+/// An identifier directly behind `:`, `of`, `proc` or `type` (comments aside)
+/// therefore names a global entity, even if a local entity has the same name.
+fn names_global_entity(tokens: &[Token], index: usize) -> bool {
+    tokens[..index]
+        .iter()
+        .rev()
+        .find(|token| !matches!(token.token_type, TokenType::Comment(_)))
+        .is_some_and(|token| {
+            matches!(
+                token.token_type,
+                TokenType::Colon | TokenType::Of | TokenType::Proc | TokenType::Type
+            )
+        })
 }
 
 fn get_local_table<'a>(
